@@ -1943,3 +1943,85 @@ Proof.
       apply (raw_print defs f dot st a v j g t g Ha0 Hcmds R); try assumption.
       intros ->. discriminate Hu.
 Qed.
+
+(* ---- S's expression evaluation never yields the while-bound error -------------------------------------------- *)
+Lemma sem_binop_noerr s op a b fl : sem_binop s op a b <> SErr fl.
+Proof.
+  destruct op; cbn [sem_binop]; try discriminate; destruct a, b; cbn [jv_strict_eq]; try discriminate;
+    unfold num; repeat match goal with |- context [if ?c then _ else _] => destruct c end; cbn [sbind]; discriminate.
+Qed.
+
+Lemma sem_noerr funcs : forall e fs s fl, scalar_core funcs e = true -> sem_expr fs s e <> SErr fl.
+Proof.
+  induction e as [x|z|txt|t|parts|b| |es|kvs|e0 IH0 name|e0 IH0 i IHi|fn IHfn args|fn IHfn args|op p x IHx
+                 |op l IHl r IHr|c IHc a IHa b IHb|op l IHl r IHr|es|x init];
+    intros fs s fl Hsc H; try discriminate Hsc; (destruct fs as [|f]; [discriminate H|]).
+  - rewrite sem_id in H. discriminate H.
+  - rewrite sem_num in H. unfold num in H. destruct (in_range z); discriminate H.
+  - rewrite sem_str in H. discriminate H.
+  - rewrite sem_bool in H. discriminate H.
+  - assert (Hscx : scalar_core funcs x = true) by (destruct op; try discriminate Hsc; exact Hsc).
+    destruct op; try discriminate Hsc.
+    + rewrite sem_not in H. destruct (sem_expr f s x) as [[v s1]|fl1| |] eqn:Hx; cbn [sbind] in H; try discriminate H.
+      * destruct (to_boolean s1 v). discriminate H.
+      * exact (IHx _ _ _ Hscx Hx).
+    + rewrite sem_neg in H. destruct (sem_expr f s x) as [[v s1]|fl1| |] eqn:Hx; cbn [sbind] in H; try discriminate H.
+      * destruct v; try discriminate H. unfold num in H. destruct (in_range (- z)); discriminate H.
+      * exact (IHx _ _ _ Hscx Hx).
+  - cbn [scalar_core] in Hsc. apply andb_prop in Hsc. destruct Hsc as [Hsc Hscr].
+    apply andb_prop in Hsc. destruct Hsc as [Hop Hscl].
+    destruct (plain_binop op) eqn:Hp.
+    + rewrite (sem_bin f s op l r Hp) in H.
+      destruct (sem_expr f s l) as [[x s1]|fl1| |] eqn:Hl; cbn [sbind] in H; try discriminate H;
+        [|exact (IHl _ _ _ Hscl Hl)].
+      destruct (sem_expr f s1 r) as [[y s2]|fl2| |] eqn:Hr; cbn [sbind] in H; try discriminate H;
+        [|exact (IHr _ _ _ Hscr Hr)].
+      exact (sem_binop_noerr _ _ _ _ _ H).
+    + destruct op; try discriminate Hp; try discriminate Hop.
+      * rewrite sem_and in H.
+        destruct (sem_expr f s l) as [[x s1]|fl1| |] eqn:Hl; cbn [sbind] in H; try discriminate H;
+          [|exact (IHl _ _ _ Hscl Hl)].
+        destruct (to_boolean s1 x) as [bb s2]. destruct bb; [exact (IHr _ _ _ Hscr H)|].
+        destruct (sem_expr f s2 r) as [[y s3]|fl2| |] eqn:Hr; cbn [sbind] in H; try discriminate H.
+        exact (IHr _ _ _ Hscr Hr).
+      * rewrite sem_or in H.
+        destruct (sem_expr f s l) as [[x s1]|fl1| |] eqn:Hl; cbn [sbind] in H; try discriminate H;
+          [|exact (IHl _ _ _ Hscl Hl)].
+        destruct (to_boolean s1 x) as [bb s2]. destruct bb; [|exact (IHr _ _ _ Hscr H)].
+        destruct (sem_expr f s2 r) as [[y s3]|fl2| |] eqn:Hr; cbn [sbind] in H; try discriminate H.
+        exact (IHr _ _ _ Hscr Hr).
+  - cbn [scalar_core] in Hsc. apply andb_prop in Hsc. destruct Hsc as [Hsc Hscb].
+    apply andb_prop in Hsc. destruct Hsc as [Hscc Hsca].
+    rewrite sem_cond in H.
+    destruct (sem_expr f s c) as [[x s1]|fl1| |] eqn:Hc; cbn [sbind] in H; try discriminate H;
+      [|exact (IHc _ _ _ Hscc Hc)].
+    destruct (to_boolean s1 x) as [bb s2]. destruct bb.
+    + destruct (sem_expr f s2 b) as [[y s3]|fl2| |] eqn:Hb; cbn [sbind] in H; try discriminate H;
+        [exact (IHa _ _ _ Hsca H)|exact (IHb _ _ _ Hscb Hb)].
+    + destruct (sem_expr f s2 a) as [[y s3]|fl2| |] eqn:Ha; cbn [sbind] in H; try discriminate H;
+        [exact (IHb _ _ _ Hscb H)|exact (IHa _ _ _ Hsca Ha)].
+Qed.
+
+Lemma goodS_noerr funcs names e : goodS funcs names e = true -> forall g fl, sem_expr efuel g e <> SErr fl.
+Proof. intros Hg g fl. destruct (goodS_parts funcs names e Hg) as (Hsc & _). exact (sem_noerr funcs e efuel g fl Hsc). Qed.
+
+(* the form Proofs/C02SimProofs.v asks for: the whole pipeline at expr_fuel, whatever the declared variables *)
+Lemma goodS_eval_pipeline funcs names e :
+  goodS funcs names e = true ->
+  forall E h g j g',
+    env_repu_on names (e_vars E) (s_env g) -> env_range_on names (s_env g) ->
+    sem_expr efuel g e = SOk (j, g') -> s_flags g' = s_flags g ->
+    exists a v,
+      Lower.lexpr funcs (goodS funcs names) e = Some a /\
+      (forall d, eval_pipeline E h (d, [[a]]) = Ok (v, h)) /\ repu v j /\ jv_ok j /\
+      s_env g' = s_env g /\ s_out g' = s_out g.
+Proof.
+  intros Hg E h g j g' Hrep Hrng Hs Hf.
+  destruct (goodS_parts funcs names e Hg) as (Hsc & Hfv & Hn & Hd).
+  assert (Hrep' : env_repu_on (fv e) (e_vars E) (s_env g)) by (intros x Hx; apply Hrep, Hfv, Hx).
+  assert (Hrng' : env_range_on (fv e) (s_env g)) by (intros x Hx; apply Hrng, Hfv, Hx).
+  destruct (compile_eval_pipeline_safe funcs E h e efuel g j g' Hsc Hn Hrep' Hrng' Hs Hf Hd)
+    as (t & a & v & Hc & _ & Hcmds & R & O & He & _ & Ho & _).
+  exists a, v. split; [unfold Lower.lexpr; rewrite Hg, Hc; reflexivity|].
+  split; [intros d; unfold eval_pipeline; cbn [snd]; exact Hcmds|]. repeat split; assumption.
+Qed.
